@@ -674,8 +674,10 @@ func ExpandEvent(js []byte, off int64, padLen, nWide int) []byte {
 //	10 batchBytes  BatchSizeBytes of the batchers
 //	11 streamOff   n > 0: every In carries the saved stream offsets {stdout: n} (what the file input passes after a restart);
 //	               with the cri decoder and antispam on, a stdout row below that offset is refused as already processed
+//	12..15         one action of the case is a REAL holding plugin (join / join_template / k8s multiline): see real.go
 type xopts struct {
 	decoder, maxSize, cutoff, antispam, meta, match, metrics, fileCommit, earlyStop, batchBytes, streamOff int
+	realKind, realCol, realMax, realVar                                                                    int // real.go
 }
 
 func parseXopts(ext []hx.Sx) (x xopts) {
@@ -711,6 +713,14 @@ func parseXopts(ext []hx.Sx) (x xopts) {
 			x.batchBytes = v
 		case 11:
 			x.streamOff = v
+		case 12:
+			x.realKind = v
+		case 13:
+			x.realCol = v
+		case 14:
+			x.realMax = v
+		case 15:
+			x.realVar = v
 		}
 	}
 	return
@@ -896,6 +906,10 @@ func RunCase(cs hx.Sx) hx.Sx {
 		PluginRuntimeInfo: &pipeline.PluginRuntimeInfo{Plugin: in},
 	})
 	for i := 0; i < nActions; i++ {
+		if xo.realKind != 0 && i == xo.realCol {
+			p.AddAction(realActionInfo(i, xo, log))
+			continue
+		}
 		p.AddAction(actionInfo(i, xo, func() (pipeline.AnyPlugin, pipeline.AnyConfig) { return &fakeAction{log: log}, nil }))
 	}
 	out := &fakeOutput{log: log, cfg: oc}
